@@ -448,7 +448,13 @@ pub enum Mut {
     Extend(Vec<u8>),
     InsertAt(u16, u8),
     RemoveAt(u16),
+    /// overwrite k consecutive bytes, starting at offset p (literal when p < 16, else scaled to
+    /// the string), by one k-byte UTF-8 character: the byte length stays what it was
+    Utf8At(u16, u8),
 }
+
+/// Multi-byte characters for `Mut::Utf8At` (2-, 3- and 4-byte; some are digits in Unicode).
+pub const UTF8_CHARS: &[&str] = &["\u{e9}", "\u{660}", "\u{20ac}", "\u{ff11}", "\u{ff21}", "\u{1f600}", "\u{1d7d8}", "\u{80}", "\u{7ff}"];
 
 pub fn nasty_byte(class: u8, x: u8) -> u8 {
     const NEAR: &[u8] = b"/:@G`g[{ \t\n-+_.,xXhH";
@@ -519,6 +525,14 @@ impl TextSpec {
                         s.remove(p);
                     }
                 }
+                Mut::Utf8At(p, k) => {
+                    let c = UTF8_CHARS[*k as usize % UTF8_CHARS.len()].as_bytes();
+                    if s.len() >= c.len() {
+                        let room = s.len() - c.len();
+                        let p = if *p < 16 { (*p as usize).min(room) } else { idx(*p, room + 1) };
+                        s[p..p + c.len()].copy_from_slice(c);
+                    }
+                }
             }
         }
         s
@@ -535,7 +549,12 @@ pub fn mut_strategy() -> impl Strategy<Value = Mut> {
         1 => vec(any::<u8>(), 1..4).prop_map(Mut::Extend),
         1 => (any::<u16>(), any::<u8>()).prop_map(|(p, x)| Mut::InsertAt(p, x)),
         1 => any::<u16>().prop_map(Mut::RemoveAt),
+        1 => utf8_mut_strategy(),
     ]
+}
+
+pub fn utf8_mut_strategy() -> impl Strategy<Value = Mut> {
+    (prop_oneof![0u16..6, any::<u16>()], any::<u8>()).prop_map(|(p, k)| Mut::Utf8At(p, k))
 }
 
 /// `gen_text`: valid / mutated / arbitrary strings for variant `v`.
@@ -557,7 +576,11 @@ pub fn text_strategy(v: Variant) -> BoxedStrategy<TextSpec> {
 pub fn utf8_text_strategy(v: Variant) -> BoxedStrategy<String> {
     let from_spec = text_strategy(v).prop_map(move |t| String::from_utf8_lossy(&t.render(v)).into_owned());
     let unicode = "\\PC{0,80}".prop_map(|s: String| s);
-    prop_oneof![6 => from_spec, 1 => unicode, 1 => Just(String::new())].boxed()
+    // a valid string of the right byte length in which multi-byte characters replace digits
+    // (valid UTF-8 by construction unless two replacements overlap; those are dropped by `lossy`)
+    let multibyte = (hash_bytes_strategy(v), any::<bool>(), vec(utf8_mut_strategy(), 1..3))
+        .prop_map(move |(base, with_prefix, muts)| String::from_utf8_lossy(&TextSpec { base, with_prefix, muts, raw: None }.render(v)).into_owned());
+    prop_oneof![6 => from_spec, 2 => multibyte, 1 => unicode, 1 => Just(String::new())].boxed()
 }
 
 /// A monotone index map (shrinks well): maps a u16 to 0..len.
